@@ -12,7 +12,8 @@
   (`ρ = −3`).  Callbacks: `k = 0` (`x = 4`, `τ = 1`), `k = 1` (`x = 1`, `τ = 0`), final `k = 2`
   (`x = 1/2`, `MaxIter`); envelope values `4, 1/4, 1/16`.
 
-  The prox step is the exact 1-D box projection step; `prox_sized` proves the sized prox contract
+  The prox step is the exact box projection step `(0, Π_C(x − γg), Π_C(x − γg) − x)`, written at vector
+  level (so that `Props/C06.ProxIsProj PCq …` holds for all lists); `prox_sized` proves the sized prox contract
   `ProxContract.Sized 1 (fun _ => 0) domq Pq.prox` for it directly.
 -/
 import Mathlib.Tactic.NormNum.Basic
@@ -30,14 +31,16 @@ scoped instance : RealLike ℚ := ⟨id, fun _ => false, fun _ => true⟩
 
 def clampQ (v : ℚ) : ℚ := if v < -1 then -1 else if 10 < v then 10 else v
 
+/-- the projection onto `C = [−1, 10]ⁿ`, componentwise -/
+def PCq (v : Vec ℚ) : Vec ℚ := v.map clampQ
+
 /-- ψ(x) = x²/2, C = [−1, 10], one variable, one constraint row with ŷ(x) = x -/
 def Pq : Problem ℚ where
   psiGradPsi x := ((x.headD 0) * (x.headD 0) / 2, [x.headD 0], [])
   psi x := ((x.headD 0) * (x.headD 0) / 2, [x.headD 0])
   gradPsi x := [x.headD 0]
   gradL x _ := [x.headD 0]
-  prox γ x g :=
-    (0, [clampQ (x.headD 0 - γ * g.headD 0)], [clampQ (x.headD 0 - γ * g.headD 0) - x.headD 0])
+  prox γ x g := (0, PCq (vsub x (smul γ g)), vsub (PCq (vsub x (smul γ g))) x)
 
 /-- the provider counts its `apply` calls: first proposal `q = −1`, every later one `q = +3`; the
     model value it claims is `−1` both times -/
